@@ -164,10 +164,13 @@ type c16Tx struct {
 	plan  *h.AspectPlan
 	jp    bool
 	desc  string
+	// host objects shared with other instances, and the gas-less call configuration (C17)
+	shared    *h.SharedHost
+	noBaseFee bool
 }
 
 func (t *c16Tx) run(hook func(fs *h.ForkSession)) (*h.ForkSession, []h.InvokeResult) {
-	fs := h.NewForkSession(t.world, t.env, h.ForkOpts{Debug: hook != nil, RecSteps: false, JoinPoints: t.jp, Plan: t.plan})
+	fs := h.NewForkSession(t.world, t.env, h.ForkOpts{Debug: hook != nil, RecSteps: false, JoinPoints: t.jp, Plan: t.plan, Shared: t.shared, NoBaseFee: t.noBaseFee})
 	if hook != nil {
 		hook(fs)
 	}
@@ -204,7 +207,7 @@ func c16Gen(seed uint64, kind string) *c16Tx {
 			full.Op(h.PUSH1, byte(i))
 		}
 		full.PushU(0).Op(h.MLOAD) // the 1025th word: stack limit
-		fresh := h.NewAsm().PushU(uint64(32*r.Intn(60))).Op(h.MLOAD).PushU(1).Op(h.SSTORE, h.MSIZE).PushU(2).Op(h.SSTORE).PushU(32).PushU(uint64(64+32*r.Intn(8))).Op(h.RETURN).Bytes()
+		fresh := h.NewAsm().PushU(uint64(32*r.Intn(60))).Op(h.MLOAD).PushU(1).Op(h.SSTORE, h.MSIZE).PushU(2).Op(h.SSTORE).PushU(32).PushU(uint64(64 + 32*r.Intn(8))).Op(h.RETURN).Bytes()
 		deep := h.NewAsm()
 		for i := 0; i < 20+r.Intn(30); i++ {
 			deep.Push(r.U256())
@@ -213,9 +216,9 @@ func c16Gen(seed uint64, kind string) *c16Tx {
 			deep.Push(r.U256()).PushU(uint64(32 * i)).Op(h.MSTORE)
 		}
 		if r.Bool() {
-			deep.PushU(64).PushU(uint64(32*r.Intn(60))).Op(h.REVERT)
+			deep.PushU(64).PushU(uint64(32 * r.Intn(60))).Op(h.REVERT)
 		} else {
-			deep.PushU(64).PushU(uint64(32*r.Intn(60))).Op(h.RETURN)
+			deep.PushU(64).PushU(uint64(32 * r.Intn(60))).Op(h.RETURN)
 		}
 		top := h.NewAsm()
 		slot := uint64(10)
@@ -378,7 +381,27 @@ func runC16(c Case, tier string) (res CaseResult) {
 			b = &c16Tx{world: h.BaseWorld([][]byte{c14Last(h.CALL, addrCtxWrite, 100000, h.Shanghai)}), env: h.EnvSpec{Fork: h.Shanghai},
 				txs: []h.TxSpec{{Entry: h.ECall, From: h.Sender, To: h.ContractAddr(0), Input: payload, Gas: 3_000_000}}, desc: "CALL to the context-write precompile"}
 		}
-		if r.Chance(50) {
+		if c.Seed%5 == 1 {
+			// A probes every precompile address (standard and Artela) after a preamble, on fork fa; B is built and run
+			// on a fork whose precompile set differs, in the middle of A's preamble
+			pairs := [][2]h.Fork{{h.Istanbul, h.Shanghai}, {h.Shanghai, h.Istanbul}, {h.Homestead, h.Byzantium}, {h.Byzantium, h.Homestead}, {h.Berlin, h.Petersburg}, {h.Cancun, h.Frontier}, {h.Petersburg, h.Cancun}}
+			pr := pairs[int(c.Seed>>4)%len(pairs)]
+			pa := h.NewAsm()
+			for i := 0; i < 45; i++ {
+				pa.PushU(uint64(i)).Op(h.POP)
+			}
+			pa.PushU(1).PushU(0).Op(h.MSTORE).PushU(2).PushU(32).Op(h.MSTORE)
+			for i, b := range []byte{1, 2, 3, 4, 5, 6, 7, 8, 9, 0x0a, 0x64, 0x65, 0x66} {
+				pa.PushU(32).PushU(0x100).PushU(64).PushU(0).PushU(0).PushAddr(common.BytesToAddress([]byte{b})).PushU(200000).Op(h.CALL).PushU(uint64(50 + 2*i)).Op(h.SSTORE)
+				pa.PushU(0x100).Op(h.MLOAD).PushU(uint64(51 + 2*i)).Op(h.SSTORE)
+				pa.Op(h.GAS).PushU(uint64(200 + i)).Op(h.SSTORE)
+			}
+			pa.Op(h.STOP)
+			a = &c16Tx{world: h.BaseWorld([][]byte{pa.Bytes()}), env: h.EnvSpec{Fork: pr[0]}, txs: []h.TxSpec{{Entry: h.ECall, From: h.Sender, To: h.ContractAddr(0), Gas: 6_000_000}}, desc: fmt.Sprintf("probe of every precompile address on %s", pr[0])}
+			b.env.Fork = pr[1]
+			b.env.ExtraEips = nil
+			b.desc += fmt.Sprintf(" (moved to %s)", pr[1])
+		} else if r.Chance(50) {
 			// same fork, B with extra EIPs that change opcodes A may contain
 			b.env.Fork = a.env.Fork
 			b.env.ExtraEips = h.Pick(r, [][]int{{3855}, {3855, 1153}, {2200, 1884}, {3860, 3855}, {5656}})
